@@ -27,11 +27,24 @@ def check(ctx, run):
     run.functions.add(bis.qualname)
     fn, tg, lo, hi = Sym("fn", ("callable",)), W.tensor("target"), W.tensor("lo"), W.tensor("hi")
     res = interp.explore(bis, [], dict(fn=fn, target=tg, lower=lo, upper=hi, precision=W.fl("precision"), max_iter=W.integer("max_iter")))
-    inc = [r for r in res if not r["raises"] and [d for _, d, _ in r["cond"]] == [False]]
+    inc_all = [r for r in res if not r["raises"] and [d for _, d, _ in r["cond"]][:1] == [False]]
+    inc = [r for r in inc_all if not any(d for _, d, _ in r["cond"][1:])]
     if len(inc) != 1:
         raise AnalysisError("bisect: cannot isolate the increasing-orientation path")
     r = inc[0]
     problems = []
+    # further data-dependent decisions on the way (an early exit from the search): the only one that keeps "within precision of the root
+    # in the ARGUMENT" is an exact hit fn(m) == target; closeness of the function VALUE says nothing about the argument where fn is flat
+    for r_x in inc_all:
+        for c_x, d_x, _ in r_x["cond"][1:]:
+            cx = c_x
+            while isinstance(cx, Op) and cx.op in ("all", "any") and cx.args:
+                cx = cx.args[0]
+            exact = isinstance(cx, Op) and cx.op == "eq" and any(isinstance(a_, Op) and a_.op == "call" and a_.args[0] == fn for a_ in cx.args) and any(a_ == tg for a_ in cx.args)
+            if not exact:
+                msg = f"additional exit/decision in the search: {str(c_x)[:120]}"
+                if msg not in problems:
+                    problems.append(msg)
     mids = []
     le_ = [e for e in r["events"] if e["kind"] == "loop_end"]
     guards = [e for e in r["events"] if e["kind"] == "guard"]
@@ -126,6 +139,21 @@ def check(ctx, run):
             kw_[k_] = v_
         ok = ok and kw_.get("target") == W.tensor("price") and _strip(kw_.get("lower")) == ivlo and _strip(kw_.get("upper")) == ivhi
         ok = ok and kw_.get("precision") == W.fl("precision") and kw_.get("max_iter") == W.integer("max_iter")
+    # the orientation of the price in the volatility is detected, not presumed: binary and barrier prices decrease in volatility in the
+    # money, so on the way through bisect the comparison fn(lower) vs fn(upper) must be a live decision (both outcomes explored)
+    def _orient(c):
+        while isinstance(c, Op) and c.op in ("all", "any", "py_bool") and c.args:
+            c = c.args[0]
+        if not (isinstance(c, Op) and c.op in ("gt", "ge", "lt", "le")):
+            return False
+        syms = {x for x in walk(c) if isinstance(x, Sym)}
+        return pr in syms and ivlo in syms and ivhi in syms
+    outcomes = {d for r2 in res if not TM.contradictory(r2["cond"]) for c, d, _ in r2["cond"][:1] if _orient(c)}
+    oko = outcomes == {True, False}
+    run.oblige("C19.R4", "find_implied_volatility: the direction of the pricer in the volatility is detected (fn(lower) vs fn(upper)), not presumed", oko, f"outcomes explored: {sorted(outcomes)}")
+    if not oko:
+        run.fail(Finding("C19.R4", fiv.qualname, "orientation of pricer(volatility=.) is not decided from fn(lower) > fn(upper)", "prices that decrease in volatility (in-the-money binaries) are inverted in the wrong direction",
+                         file=str(prog.modules[fiv.module].path), line=fiv.node.lineno))
     pc = [e for r2 in res for e in r2["events"] if e["kind"] == "opaque_call" and e["callee"] == pr]
     ok = ok and bool(pc) and all("volatility" in e["kwargs"] and e["kwargs"].get("log_moneyness") == W.tensor("s") for e in pc)
     run.oblige("C19.R4", "find_implied_volatility: bisect(pricer(volatility=., **params), price, lower, upper, precision, max_iter)", ok, "")
